@@ -1,14 +1,16 @@
-import RNacos.Lemmas.LogHistory
+import RNacos.Lemmas.LogCrash
 /-!
 # C04 — Raft store is crash-consistent at every file-write boundary
 
 What is proved here is the part of the property that the single-file model can carry: an operation that issues
 ONE file write is atomic under the property's crash model, so the crash points inside it are its two ends; the
 invariant `WF` (C02) holds at both.  Appends that do not complete an index step and `write_last_applied_log` /
-`write_index` (C05) are of this kind.  The operations with several writes – an append that completes an index
-step (record, then index entry), a truncation (index area, then records), rollover, multi-file truncation – are
-decided by enumeration of every prefix of the real journal of file mutations (`./check C04`), which is where F24
-was found; a Lean proof of the repaired recovery (`repairIndex`) for the torn index step is not attempted.
+`write_index` (C05) are of this kind.  The append that completes an index step issues two writes (record, then index
+entry): the crash point between them is `torn_index_step` – the recovery with its repair (`repairIndex`, added by
+fix F24) reconstructs exactly the file the complete append produces.  The remaining multi-write operations
+(truncation: index area, then records; rollover; multi-file truncation; the interleaving of the four actors' writes)
+are decided by enumeration of every prefix of the real journal of file mutations (`./check C04`), which is where F24,
+F25 and F26 were found.
 -/
 namespace RNacos.Props.C04
 open RNacos.LogFile RNacos.Spec.Stream
@@ -36,6 +38,16 @@ theorem recovery_after_append (f : LogFile) (es : List Rec) (r : Rec) (h : WF f 
     WF (load f.bytes fl f.startIndex pre sp) es ∧
     WF (load (write f r).1.bytes fl (write f r).1.startIndex pre sp) (es ++ [r]) :=
   ⟨load_wf f es h fl pre sp, load_wf _ _ (write_wf f es r h hfull hidx hr hsz).1 fl pre sp⟩
+
+/-- **the torn index step**: killed after the record that completes an index step was written and before its index
+entry was – for any number of earlier index entries and any record sizes – the next start recovers a well-formed file
+that holds every old entry and the new record, with the missing index entry written back -/
+theorem torn_index_step (f : LogFile) (es : List Rec) (r : Rec) (h : WF f es) (hfull : isFull f = false)
+    (hidx : r.index = endIndex f) (hr : RecOK r) (hsz : f.dataCursor + (frame (recBody r)).length < 2 ^ 64)
+    (hstep : f.curCount + 1 = f.interval) (fl pre sp : Nat) :
+    WF (load (RNacos.IndexFile.writeAt f.bytes (if f.needSeek then f.dataCursor else f.pos) (frame (recBody r)))
+          fl f.startIndex pre sp) (es ++ [r]) :=
+  torn_index_step_recovers f es r h hfull hidx hr hsz hstep fl pre sp
 
 /-- on a file whose index entries are complete the recovery's repair step changes nothing -/
 theorem repair_is_identity_on_complete_files (fuel : Nat) (f : LogFile) (es : List Rec) (h : WF f es) :
